@@ -65,10 +65,15 @@ structure S where
   /-- implementation observations: build outcome, node counts, per injection (sig, id, tokens) -/
   implBuild : Option String := none
   implNodes : Option (List String) := none
+  implRouters : Option (List String) := none
   pendingInject : Option (Sig × Nat) := none
   implRoutes : List (Sig × Nat × List String) := []
   implCycle : Option (List String) := none
+  implConnErr : Option (List String) := none
   failCreate : List Node := []
+  valGate : Bool := true
+  modelVal : Option String := none
+  implVal : Option String := none
   bad : Option String := none
 
 def firstDiff (want got : List String) : String :=
@@ -95,11 +100,19 @@ def handler : Handler S where
       | some sg, some name, some r, some p, some e =>
         ({ s with cfg := { s.cfg with pipes := s.cfg.pipes ++ [{ id := { sig := sg, name := name }, recv := r, procs := p, exps := e }] } }, [])
       | _, _, _, _, _ => (s, ["obs bad-op"])
-    | ["validate"] =>
-      let cls (e : ValErr) : String := match e with
-        | .noReceivers => "receivers" | .noExporters => "exporters" | .dupProcessor => "dupproc"
-      let errs := sortStr ((validate s.cfg).map cls)
-      (s, [if errs.isEmpty then "obs validate ok" else "obs validate err=" ++ ",".intercalate errs])
+    | "validate" :: rest =>
+      -- `validate` (feature gate service.profilesSupport on) or `validate gate=0|1`
+      let gate? : Option Bool := match rest with
+        | [] => some true | ["gate=1"] => some true | ["gate=0"] => some false | _ => none
+      match gate? with
+      | none => (s, ["obs bad-op"])
+      | some gate =>
+        let cls (e : ValErr) : String := match e with
+          | .noReceivers => "receivers" | .noExporters => "exporters" | .dupProcessor => "dupproc"
+          | .noPipelines => "nopipelines" | .profilesGate => "profilesgate"
+        let errs := sortStr ((validateAll gate s.cfg).map cls)
+        let r := if errs.isEmpty then "ok" else "err=" ++ ",".intercalate errs
+        ({ s with valGate := gate, modelVal := some r }, ["obs validate " ++ r])
     | ["failcreate", tok] =>
       match parseNode tok with
       | some n => ({ s with failCreate := s.failCreate ++ [n] }, [])
@@ -119,7 +132,10 @@ def handler : Handler S where
       | some .create => (s, ["obs build err=create"])
       | none =>
         let keys := sortStr (((nodes s.cfg).filter Node.isComp).map (fun n => nodeTok n ++ "=1"))
-        (s, ["obs build ok", "obs nodes " ++ " ".intercalate keys])
+        -- the router of every connector instance = its successors in the built graph (the next pipelines' capabilities nodes)
+        let routers := sortStr (((nodes s.cfg).filter isConnNode).map (fun n =>
+          nodeTok n ++ "=" ++ "+".intercalate (sortStr ((succOf (edges s.cfg) n).filterMap (fun m => match m with | .cap q => some (pipeTok q) | _ => none)))))
+        (s, ["obs build ok", "obs nodes " ++ " ".intercalate keys, s!"obs routers {routers.length} " ++ " ".intercalate routers])
     | ["inject", sg, i] =>
       match sg.toNat?.bind Sig.ofNat?, i.toNat? with
       | some sg, some i =>
@@ -134,9 +150,12 @@ def handler : Handler S where
     | _ => (s, ["obs bad-op"])
   onObs := fun s toks =>
     match toks with
+    | ["obs", "validate", r] => { s with implVal := some r }
     | "obs" :: "build" :: rest => { s with implBuild := some (" ".intercalate rest) }
     | "obs" :: "nodes" :: rest => { s with implNodes := some rest }
+    | "obs" :: "routers" :: _ :: rest => { s with implRouters := some rest }
     | "tr" :: "cycle" :: rest => { s with implCycle := some rest }
+    | "tr" :: "connerr" :: rest => { s with implConnErr := some rest }
     | "obs" :: "route" :: _ :: rest =>
       match s.pendingInject with
       | some (sg, i) => { s with implRoutes := s.implRoutes ++ [(sg, i, rest)], pendingInject := none }
@@ -156,7 +175,7 @@ def handler : Handler S where
     let modelRoutes (sg : Sig) (i : Nat) : Option (List String) :=
       (deliver (succOf fes) (fes.length + 2) (Node.recv sg i)).map (fun ws => sortStr (ws.map walkTok))
     let refDisagree : Option String :=
-      if !(validate cfg).isEmpty then none   -- not well-formed (never built): the theorems' hypothesis `WF` does not hold
+      if !(validateAll s.valGate cfg).isEmpty then none   -- not well-formed (never built): the theorems' hypothesis `WF` does not hold
       else if someUnsupported cfg != unsup then some "unsupported-use"
       else if !unsup && pipeCyclic cfg != cyc then some "connector-cycle"
       else if expectedKeys cfg != modelKeys then some "component-keys"
@@ -174,6 +193,10 @@ def handler : Handler S where
       | some "ok" =>
         if unsup then "prop reject=FAIL sig=C09/reject/accepted-unsupported-connector-use"
         else if cyc then "prop reject=FAIL sig=C09/reject/accepted-connector-cycle"
+        -- `C09_build_with_failing_factory`: an accepted configuration with a component that cannot be created (failing factory, id not
+        -- configured, no factory for its type) must make Build return that error
+        else if (buildWith cfg (fun n => s.failCreate.contains n)) == some BuildErrW.create then
+          "prop reject=FAIL sig=C09/reject/built-although-a-component-could-not-be-created"
         else "prop reject=ok"
       | some "err=create" =>
         if unsup || cyc then "prop reject=FAIL sig=C09/reject/factory-called-for-a-rejected-configuration"
@@ -182,7 +205,9 @@ def handler : Handler S where
         if unsup || cyc then
           (if other = "err=connector" && !unsup then "prop reject=FAIL sig=C09/reject/wrong-error-class-connector"
            else if other = "err=cycle" && unsup then "prop reject=FAIL sig=C09/reject/wrong-error-class-cycle"
-           else "prop reject=ok")
+           else if other = "err=connector" || other = "err=cycle" then "prop reject=ok"
+           -- rejected, but with neither of the two errors the property names (a panic, a factory error, …)
+           else s!"prop reject=FAIL sig=C09/reject/invalid-configuration-rejected-with-another-error {(other.take 60).toString}")
         else s!"prop reject=FAIL sig=C09/reject/rejected-valid-configuration {other}"
     let sharingProp :=
       match s.implNodes with
@@ -214,9 +239,39 @@ def handler : Handler S where
         match toks.mapM parseNode with
         | none => s!"prop cyclemsg=FAIL sig=C09/reject/cycle-message-unparsable {toks}"
         | some l => if cycleMsgOk cfg l then "prop cyclemsg=ok" else s!"prop cyclemsg=FAIL sig=C09/reject/cycle-message-not-a-cycle {toks}"
+    -- content of the connector error: the reported use must be a genuine unsupported use and list exactly its pipelines
+    let parsePipe (t : String) : Option PipeId :=
+      match t.splitOn "." with
+      | [a, b] => do let sg ← a.toNat?.bind Sig.ofNat?; let n ← b.toNat?; pure { sig := sg, name := n }
+      | _ => none
+    let connProp :=
+      match s.implConnErr with
+      | none => if s.implBuild = some "err=connector" then "prop connmsg=FAIL sig=C09/reject/connector-error-without-parsable-message" else "prop connmsg=ok"
+      | some [role, c, sg, pipes] =>
+        match (if role = "exp" then some Role.exp else if role = "recv" then some Role.recv else none), c.toNat?, sg.toNat?.bind Sig.ofNat?,
+              (pipes.splitOn ",").mapM parsePipe with
+        | some role, some c, some sg, some l =>
+          if connMsgOk cfg role c sg l then "prop connmsg=ok"
+          else s!"prop connmsg=FAIL sig=C09/reject/connector-message-does-not-describe-an-unsupported-use {s.implConnErr.getD []}"
+        | _, _, _, _ => s!"prop connmsg=FAIL sig=C09/reject/connector-message-unparsable {s.implConnErr.getD []}"
+      | some other => s!"prop connmsg=FAIL sig=C09/reject/connector-message-unparsable {other}"
+    -- every connector instance's router holds exactly the next pipelines of the configuration (`C09_sharing_connectors` + `edges`)
+    let routerProp := match s.implRouters with
+      | none => "prop routers=ok"
+      | some got =>
+        let want := sortStr (((nodes cfg).filter isConnNode).map (fun n =>
+          nodeTok n ++ "=" ++ "+".intercalate (sortStr ((succOf (edges cfg) n).filterMap (fun m => match m with | .cap q => some (pipeTok q) | _ => none)))))
+        if got = want then "prop routers=ok"
+        else s!"prop routers=FAIL sig=C09/router/router-pipelines-differ-from-the-configured-next-pipelines {firstDiff want got}"
+    -- the validation result against `validateAll` (`C09_validate_all`): a direct verdict beside the obs diff
+    let valProp := match s.implVal, s.modelVal with
+      | some a, some b =>
+        if a == b then "prop validate=ok"
+        else s!"prop validate=FAIL sig=C09/validate/result-{((a.splitOn ":").headD a)}-where-the-model-says-{b}"
+      | _, _ => "prop validate=ok"
     match s.bad with
     | some b => [s!"prop protocol=FAIL sig=C09/harness/unparsable {b}"]
-    | none => [rejectProp, sharingProp, routeFail.getD "prop routing=ok", cycleProp, refProp]
+    | none => [valProp, rejectProp, sharingProp, routerProp, routeFail.getD "prop routing=ok", cycleProp, connProp, refProp]
 
 end OtelVerif.Drivers.C09
 
